@@ -167,7 +167,7 @@ Ctx0(a) == [U |-> OptU, R |-> OptR, exists |-> a \in DOMAIN table]
 
 LineInfoF(f) ==    \* the gate, for a frame given as digits
   LET isf == Len(f) \in {14, 28} /\ LenAgrees(f) /\ ParityOK(f)
-  IN  [f |-> f, isf |-> isf, df |-> DFof(f), a |-> IF isf THEN Address(f) ELSE 0]
+  IN  [f |-> f, isf |-> isf, df |-> IF Len(f) >= 2 THEN DFof(f) ELSE -1, a |-> IF isf THEN Address(f) ELSE 0]
 
 \* evaluated once per frame of the alphabet
 LI == [k \in Frames |-> LineInfoF(Alphabet[k])]
